@@ -494,6 +494,9 @@ func c17Corpus() []struct {
 			{Op: "allow", Aim: "early"}, {Op: "waittimeout", Aim: "late"}, {Op: "waitcancelled"}}, w(1))}},
 		{"burst", c17Plan{N0: 2, W0ms: 100, Ops: []c17Op{{Op: "burst", N: 5}, {Op: "sleep", Ms: 120}, {Op: "burst", N: 3}}}},
 		{"window-change", c17Plan{N0: 2, W0ms: 100, Ops: cat(w(2), one(c17Op{Op: "setwin", Ms: 300}), w(3), one(c17Op{Op: "setwin", Ms: 50}), w(3))}},
+		// a burst of more than N waiters after an idle gap longer than the window, right after creation
+		{"idle-then-burst", c17Plan{N0: 2, W0ms: 100, Ops: []c17Op{{Op: "sleep", Ms: 250}, {Op: "burst", N: 4}, {Op: "sleep", Ms: 220}, {Op: "burst", N: 3}}}},
+		{"idle-then-burst", c17Plan{N0: 1, W0ms: 120, Ops: []c17Op{{Op: "sleep", Ms: 200}, {Op: "wait"}, {Op: "wait"}, {Op: "sleep", Ms: 300}, {Op: "burst", N: 3}}}},
 		{"idle-gap", c17Plan{N0: 2, W0ms: 80, Ops: cat(w(2), one(c17Op{Op: "sleep", Ms: 200}), w(3), []c17Op{{Op: "allow", Aim: "early"}, {Op: "allow", Aim: "late"}})}},
 	}
 }
@@ -558,7 +561,13 @@ type c17FirstPlan struct {
 	Rounds     int `json:"rounds,omitempty"` // replay: how many fresh keys to try
 }
 
+// c17ThrottleStuck is set when callers of the real throttle did not come back although their
+// contexts had expired long ago (e.g. NewRateLimiter never returned inside throttle, which holds
+// rateLimitersMu): from then on nothing that takes that mutex may be called without a watchdog.
+var c17ThrottleStuck atomic.Bool
+
 type c17FirstObs struct {
+	Blocked  bool   `json:"callers_blocked_in_throttle,omitempty"` // some callers never returned (3 s after their deadline)
 	Key      string `json:"key"`
 	Admitted int    `json:"admitted"`
 	Stamps   int    `json:"stamps_in_registered_limiter"`
@@ -597,7 +606,12 @@ func c17FirstRound(p c17FirstPlan, cfg *certmagic.Config) c17FirstObs {
 	}
 	ready.Wait()
 	start.Store(1)
-	done.Wait()
+	// the callers' contexts expire after the deadline; a caller that is still not back 3 s later is
+	// blocked inside throttle on something that does not honour its context
+	if !c17Within(time.Duration(p.DeadlineMs)*time.Millisecond+3*time.Second, done.Wait) {
+		c17ThrottleStuck.Store(true)
+		return c17FirstObs{Key: key, Admitted: int(admitted.Load()), Blocked: true}
+	}
 	time.Sleep(2 * time.Millisecond)
 	o := c17FirstObs{Key: key, Admitted: int(admitted.Load())}
 	if rl, ok := certmagic.VerifRateLimiterFor(key); ok {
@@ -617,6 +631,9 @@ func c17FirstEmit(w *emit.Writer, p c17FirstPlan, o c17FirstObs) {
 	e.Int(1).Int(p.N).Z(int64(time.Duration(p.WindowS) * time.Second)).Int(p.Callers).
 		Z(int64(time.Duration(p.DeadlineMs) * time.Millisecond)).Int(o.Admitted).Int(o.Stamps)
 	w.Hist("class=concurrent-first-throttle")
+	if o.Blocked {
+		w.Hist("first_throttle: callers_blocked_in_throttle")
+	}
 	w.Hist(fmt.Sprintf("first_throttle: callers=%d limit=%d", p.Callers, p.N))
 	w.Add(emit.Case{Desc: map[string]any{"class": "concurrent-first-throttle", "callers": p.Callers, "rate_limit_events": p.N},
 		In: p, Obs: o, Wire: e.String(), Nontrivial: p.Callers > p.N, Key: fmt.Sprintf("first:%d:%d:%d", p.N, p.Callers, o.Round)})
@@ -629,15 +646,19 @@ func c17FirstThrottle(w *emit.Writer, plans []c17FirstPlan, stopAtFailure bool) 
 	defer cache.Stop()
 	for r, p := range plans {
 		var o c17FirstObs
+		if c17ThrottleStuck.Load() {
+			w.Hist("first_throttle: skipped_throttle_is_stuck")
+			break
+		}
 		for try := 0; try < 3; try++ {
 			o = c17FirstRound(p, cfg)
-			if o.Admitted >= min(p.Callers, p.N) || p.N == 0 {
+			if o.Admitted >= min(p.Callers, p.N) || p.N == 0 || o.Blocked {
 				break
 			}
 			w.Hist("first_throttle: round_repeated_too_few_admitted")
 		}
 		o.Round = r
-		if stopAtFailure && o.Admitted <= p.N && r < len(plans)-1 {
+		if stopAtFailure && o.Admitted <= p.N && !o.Blocked && r < len(plans)-1 {
 			continue // replay: look for a round that shows the failure; emit the last one otherwise
 		}
 		c17FirstEmit(w, p, o)
